@@ -43,6 +43,12 @@ def letters(n):
     return s
 
 
+def qual(title, force=False):
+    """sheet qualifier of a reference; quotes only where the title needs them (or when forced)"""
+    plain = title.replace('_', '').isalnum() and not title[0].isdigit()
+    return f"{title}!" if plain and not force else f"'{title}'!"
+
+
 def a1(titles, k):
     return f'{titles[k[0]]!r}!{letters(k[1] + 1)}{k[2] + 1}'
 
@@ -203,7 +209,7 @@ class Ctx:
 
     def result(self):
         return {'stats': self.stats, 'fails': self.fails, 'samples': self.samples, 'skipped': self.skipped,
-                'index': self.case['index']}
+                'index': self.case['index'], 'name': self.case['name']}
 
 
 def q_cell(ex, titles, k, sp):
@@ -215,12 +221,16 @@ def q_cell(ex, titles, k, sp):
 def chk_addressing(ctx, ex, titles, V, coords, rng, limit):
     pick = coords if len(coords) <= limit else rng.sample(coords, limit)
     for k in pick:
-        for sp in range(8):
-            got = q_cell(ex, titles, k, sp)
-            ctx.count('addressing', 1, got != BLANK_KEY)
-            if got != V[k]:
-                ctx.fail('addressing', f'C08.addressing.spelling{sp}',
-                         f'get_cell({spell_text(sp, titles, *k)}) -> {got}; fresh numeric single query of {a1(titles, k)} -> {V[k]}')
+        got = [q_cell(ex, titles, k, sp) for sp in range(8)]
+        ctx.count('addressing', 8, 8 * (V[k] != BLANK_KEY))
+        odd = [sp for sp in range(8) if got[sp] != got[0]]
+        if odd:
+            ctx.fail('addressing', 'C08.addressing.spellings_disagree',
+                     f'get_cell({spell_text(0, titles, *k)}) -> {got[0]} but get_cell({spell_text(odd[0], titles, *k)}) -> {got[odd[0]]} '
+                     f'(spellings that differ from the numeric one: {[spell_text(sp, titles, *k) for sp in odd]})')
+        elif got[0] != V[k]:
+            ctx.fail('addressing', 'C08.addressing.differs_from_fresh_single_query',
+                     f'all 8 spellings of {a1(titles, k)} -> {got[0]}; fresh executor, same overrides, numeric single query -> {V[k]}')
     if pick:
         k = pick[len(pick) // 2]
         ctx.sample('addressing', {'cell': a1(titles, k), 'spellings': [spell_text(sp, titles, *k) for sp in (0, 7)], 'value': V[k]})
@@ -384,10 +394,10 @@ class Model:
         if t == 'num':
             return str(ast[1])
         if t == 'ref':
-            q = '' if ast[1] is None else f"'{self.titles[ast[1]]}'!"
+            q = '' if ast[1] is None else qual(self.titles[ast[1]])
             return f'{q}{letters(ast[2] + 1)}{ast[3] + 1}'
         if t == 'sum':
-            q = '' if ast[1] is None else f"'{self.titles[ast[1]]}'!"
+            q = '' if ast[1] is None else qual(self.titles[ast[1]])
             return f'SUM({q}{letters(ast[2] + 1)}{ast[3] + 1}:{letters(ast[4] + 1)}{ast[5] + 1})'
         if t == 'bin':
             s = f'{self.text(ast[2], False)}{ast[1]}{self.text(ast[3], False)}'
@@ -506,7 +516,6 @@ def gen_arith(rng, index):
         own = []
         if s > 0 and rng.random() < 0.6:                      # the same formula text on two sheets
             own = list(forms[s - 1][:rng.randint(1, max(1, len(forms[s - 1])))])
-            own = [a for a in own if 'None' in repr(a) or True]
         n = rng.randint(2, 7)
         while len(own) < n:
             own.append(top(s, len(own)))
@@ -528,10 +537,28 @@ def gen_arith(rng, index):
         if not isinstance(cells[k], int):
             cells[k] = fix(cells[k], k[0])
     model = Model(list(titles), cells)
+    reads = set()
+
+    def walk(a, s):
+        if a[0] == 'ref':
+            reads.add((s if a[1] is None else a[1], a[2], a[3]))
+        elif a[0] == 'sum':
+            u = s if a[1] is None else a[1]
+            reads.update((u, c, r) for r in range(a[3], a[5] + 1) for c in range(a[2], a[4] + 1))
+        elif a[0] == 'bin':
+            walk(a[2], s), walk(a[3], s)
+        elif a[0] == 'if':
+            walk(a[2], s), walk(a[4], s), walk(a[5], s)
+    for k, v in cells.items():
+        if not isinstance(v, int):
+            walk(v, k[0])
+    reads = sorted(k for k in reads if k[1] < 30 and k[2] < 130)
     # overrides: precedents (data, holes, beyond the used range, formula cells, far cells), 2-3 rounds, one batch over two sheets
     def target():
         s = rng.randrange(len(titles))
         x = rng.random()
+        if reads and rng.random() < 0.6:
+            return rng.choice(reads)
         if x < 0.5:
             return (s, rng.randrange(dcols[s]), rng.randrange(drows[s] + 3))
         if x < 0.7:
@@ -546,9 +573,8 @@ def gen_arith(rng, index):
         batches.append(b)
     if len(titles) > 1:
         batches[0] = [[0, 0, drows[0] + 2, 6, 7], [1, dcols[1] + 1, 0, 8, 0]] + batches[0]
-    wide = any(k[1] >= 25 or k[2] >= 100 for b in batches for k in [b_[:3] for b_ in b])
     return {'name': 'arith', 'spec': model.spec(), 'batches': batches, 'model': model, 'extra': [(0, 26, 0), (0, 25, 100), (0, 702, 1000)],
-            'nogrid': [], 'wide': wide}
+            'nogrid': []}
 
 
 # ------------------------------------------------------------------------------------------------ rich workbooks
@@ -589,6 +615,7 @@ def gen_rich(rng, index):
                     filled[s].add((c, r))
     FC = 5
     forms = [[] for _ in titles]
+    reads = []
 
     class H:
         def __init__(self, s, k):
@@ -599,7 +626,10 @@ def gen_rich(rng, index):
             return rng.choice(cs) if cs else 0
 
         def cell(self, c):
-            return f'{letters(c + 1)}{rng.randint(1, drows[self.s] + 3) if rng.random() < 0.9 else rng.choice([101, 1001])}'
+            r = rng.randint(1, drows[self.s] + 3) if rng.random() < 0.9 else rng.choice([101, 1001])
+            if r < 130:
+                reads.append(((self.s, c, r - 1), ctype[self.s][c] if c < dcols[self.s] else 'num'))
+            return f'{letters(c + 1)}{r}'
 
         def num(self):
             return self.cell(self.col('num'))
@@ -628,31 +658,39 @@ def gen_rich(rng, index):
             r2 = rng.randint(r1, drows[self.s] + 3)
             if rows:
                 r1, r2 = rows
+            reads.append(((self.s, c, rng.randint(r1, r2) - 1), ctype[self.s][c]))
+            reads.append(((self.s, c, r2 - 1), ctype[self.s][c]))
             return f'{letters(c + 1)}{r1}:{letters(c + 1)}{r2}', (r1, r2)
 
         def hrange(self):
             r = rng.randint(1, drows[self.s] + 1)
+            reads.append(((self.s, rng.randrange(dcols[self.s] + 1), r - 1), 'num'))
             return f'A{r}:{letters(dcols[self.s] + 1)}{r}'
 
         def matrix(self, mincols=1):
             c2 = max(mincols, rng.randint(1, dcols[self.s] + 1))
-            return f'A1:{letters(c2)}{rng.randint(1, drows[self.s] + 2)}', c2
+            r2 = rng.randint(1, drows[self.s] + 2)
+            reads.append(((self.s, rng.randrange(c2), rng.randrange(r2)), 'num'))
+            return f'A1:{letters(c2)}{r2}', c2
 
         def x(self):
             if self.s == 0:
                 return self.num()
             t = rng.randrange(self.s)
-            q = f"'{titles[t]}'!" if rng.random() < 0.7 or not titles[t].isalpha() else f'{titles[t]}!'
+            q = qual(titles[t], rng.random() < 0.4)
             if forms[t] and rng.random() < 0.5:
                 j = rng.randrange(len(forms[t]))
                 return f'{q}{letters(FC + j % 3 + 1)}{j // 3 + 1}'
-            return f'{q}{letters(rng.randrange(dcols[t]) + 1)}{rng.randint(1, drows[t] + 2)}'
+            c, r = rng.randrange(dcols[t]), rng.randint(1, drows[t] + 2)
+            reads.append(((t, c, r - 1), ctype[t][c]))
+            return f'{q}{letters(c + 1)}{r}'
 
         def xrange(self):
             if self.s == 0:
                 return self.vrange()[0]
             t = rng.randrange(self.s)
-            return f"'{titles[t]}'!A1:{letters(dcols[t])}{drows[t] + 2}"
+            reads.append(((t, rng.randrange(dcols[t]), rng.randrange(drows[t] + 2)), 'num'))
+            return f"{qual(titles[t], rng.random() < 0.4)}A1:{letters(dcols[t])}{drows[t] + 2}"
 
     def formula(h):
         T = [
@@ -716,6 +754,8 @@ def gen_rich(rng, index):
     def target():
         s = rng.randrange(n)
         x = rng.random()
+        if reads and rng.random() < 0.6:
+            return rng.choice(reads)
         if x < 0.55 or not forms[s]:
             c = rng.randrange(dcols[s])
             return (s, c, rng.randrange(drows[s] + 3)), ctype[s][c]
@@ -769,7 +809,7 @@ def fixed_cases(tier):
     add('empty_sheet', [('S', [['A', 1, 1], ['B', 1, "=Empty!C2+A1"]]), ('Empty', [])], [[[1, 2, 1, 5, 7]], [[1, 0, 0, 1, 0], [0, 0, 0, 3, 1]]])
     add('raising', [('S', [['A', 1, 6], ['A', 2, 0], ['B', 1, '=A1/A2'], ['B', 2, '=IFERROR(A1/A2,-1)'], ['C', 1, '=B1+1']]), ('T', [['A', 1, '=S!A1']])],
         [[[0, 0, 0, 8, 0]], [[0, 0, 1, 2, 7]], [[0, 0, 1, 'txt', 3]]])
-    add('column_spill', [('S', [['A', 1, 1], ['B', 1, 2], ['C', 1, 3], ['A', 3, '=COLUMN(B1:D1)'], ['A', 4, '=SUM(A:A)'], ['E', 5, '=COLUMN()'], ['A', 5, '=B3+1']])],
+    add('column_spill', [('S', [['A', 1, 1], ['B', 1, 2], ['C', 1, 3], ['A', 3, '=COLUMN(B1:D1)'], ['D', 4, '=SUM(A:A)'], ['E', 5, '=COLUMN()'], ['A', 5, '=B3+1']])],
         [[[0, 0, 6, 50, 7]], [[0, 1, 2, 9, 0], [0, 0, 0, 10, 7]]])
     add('types', [('S', [['A', 1, True], ['A', 2, 1], ['A', 3, {'$f': '1.0'}], ['A', 4, '1'], ['A', 5, dt(2051, 1, 1)], ['A', 6, 'y' * 60],
                          ['B', 1, '=A1'], ['B', 2, '=A2'], ['B', 3, '=A3'], ['B', 4, '=A4'], ['B', 5, '=A5'], ['B', 6, '=A6'], ['B', 7, '=A7'],
@@ -789,8 +829,8 @@ def fixed_cases(tier):
 
 # ------------------------------------------------------------------------------------------------ one case
 def plan(tier):
-    return {'quick': {'rich': 110, 'arith': 90, 'nops': 25, 'addr': 60},
-            'thorough': {'rich': 3400, 'arith': 2400, 'nops': 60, 'addr': 150}}[tier]
+    return {'quick': {'rich': 150, 'arith': 120, 'nops': 25, 'addr': 60},
+            'thorough': {'rich': 2600, 'arith': 1800, 'nops': 50, 'addr': 120}}[tier]
 
 
 def make_case(tier, seed, index):
@@ -831,7 +871,7 @@ def run_case(case):
         new_ex = make_factory(case['flavour'], pipe, d)
         base = used_dims(case['spec'])
         ex = new_ex()
-        Empty = ex.get_executed_class().EmptyCell
+        Empty = type(ex.get_executed_class())
         all_targets = [tuple(c[:3]) for b in case['batches'] for c in b]
         O, Vprev, V0, coords0 = {}, None, None, None
         for j, batch in enumerate([[]] + case['batches']):
@@ -886,7 +926,7 @@ def run_case(case):
                 items = list(O.items())
                 rng.shuffle(items)
                 cut = rng.randint(0, len(items))
-                E2 = ex2.get_executed_class().EmptyCell
+                E2 = type(ex2.get_executed_class())
                 for part in (items[:cut], items[cut:]):
                     if part:
                         ex2.set_cells([spell(rng.randrange(8), titles, *k, dval(v, E2)) for k, v in part])
@@ -998,7 +1038,7 @@ def _work(args):
     except BaseException as e:                      # a crash of the monitor itself must be visible
         import traceback
         return {'stats': {c: [0, 0] for c in CHECKS}, 'samples': {c: [] for c in CHECKS}, 'skipped': None, 'index': index,
-                'fails': [{'check': 'schedule', 'key': 'C08.monitor_error', 'what': f'case {index}: {type(e).__name__}: {e} {traceback.format_exc()[-400:]}',
+                'name': 'error', 'fails': [{'check': 'schedule', 'key': 'C08.monitor_error', 'what': f'case {index}: {type(e).__name__}: {e} {traceback.format_exc()[-400:]}',
                            'size': 0, 'index': index}]}
 
 
@@ -1047,8 +1087,9 @@ def run(tier='quick', seed=0):
         for c in CHECKS:
             agg[c]['ev'] += r['stats'][c][0]
             agg[c]['nt'] += r['stats'][c][1]
-            if len(agg[c]['samples']) < 3 and r['samples'][c]:
-                agg[c]['samples'].append(r['samples'][c][0])
+            if len(agg[c]['samples']) < 3 and r['samples'][c] and r.get('name') not in agg[c].setdefault('names', set()):
+                agg[c]['names'].add(r.get('name'))
+                agg[c]['samples'].append(dict(r['samples'][c][-1], case=f"{r['index']} {r.get('name')}"))
         for f in r['fails']:
             agg[f['check']]['fails'].append(f)
     # executor re-use and aliasing (deterministic, in this process)
